@@ -35,7 +35,8 @@ RULE = (
     "(a) virtual time: ALL sequences of per-attempt outcomes {reply in time, no reply, reply "
     "after the timeout, two replies, ICMP error via error_received, connection lost} up to "
     "the retry budget for retries 1..4 (thorough 1..5) x timeouts {0.5, 1, 3} (thorough also 7.25), plus cancellation "
-    "of the caller during each attempt; oracle over the recorded transport events: sends <= "
+    "of the caller during each attempt, and histories of 1..130 calls whose socket creation "
+    "fails followed by a normal exchange; oracle over the recorded transport events: sends <= "
     "retries, identical payload, unanswered attempts exactly `timeout` virtual seconds apart, "
     "first reply returned unmodified at its arrival time, Timeout at exactly retries*timeout, "
     "ICMP/connection-loss either propagates or is retried, every transport closed or aborted "
@@ -119,6 +120,44 @@ def run_virtual(seq, retries, timeout, cancel_at=None):
             pass
     gc.collect()
     return result.get("r", ("deadlock", None, None)), t0, log, transports, hygiene
+
+
+def run_after_create_failures(n_fail):
+    """n_fail send_udp calls that fail at socket creation, then one call that is answered on attempt 2."""
+    seq = ("none", "reply")
+    state = {"base": 0}
+
+    def factory(index):
+        return make_script_factory(seq, 1)(index - state["base"])
+
+    loop = VLoop(factory)
+    result = {}
+
+    async def main():
+        for _ in range(n_fail):
+            loop.create_failures = 1
+            try:
+                await send_udp(EP, REQUEST, timeout=1, loop=loop, retries=2)
+            except OSError:
+                pass
+        loop.create_failures = 0
+        state["base"] = len(loop.transports)
+        try:
+            val = await send_udp(EP, REQUEST, timeout=1, loop=loop, retries=2)
+            result["r"] = ("ok", val) if val == reply_bytes(1) else ("wrong-reply", val)
+        except Exception as exc:  # noqa: BLE001
+            result["r"] = ("exc", exc)
+
+    try:
+        loop.run_until_complete(main())
+    except Deadlock:
+        result["r"] = ("deadlock", "the call never completes: event loop would block forever")
+    finally:
+        try:
+            loop.close()
+        except Exception:  # noqa: BLE001
+            pass
+    return result.get("r", ("deadlock", None))
 
 
 def judge_virtual(R, case, seq, retries, timeout, res, t0, log, transports):
@@ -226,6 +265,18 @@ def virtual_part(R):
                 R.mon["virtual_sequences_run"] += 1
                 R.mon["hygiene_events"] += len(hygiene)
                 judge_virtual(R, case, seq, retries, timeout, res, t0, log, transports)
+    # history: N calls whose socket cannot even be created (OS error), then a normal
+    # exchange in the same process / on the same loop must still work
+    for n_fail in (1, 5, 63, 64, 70, 130):
+        k += 1
+        if not R.mine(k):
+            continue
+        case = {"part": "virtual-create-failures", "n_fail": n_fail, "retries": 2, "timeout": 1, "seq": ["none", "reply"]}
+        res = run_after_create_failures(n_fail)
+        R.case(("c13a-create-fail", n_fail), True, sample={**case, "outcome": res[0]} if n_fail == 5 else None)
+        R.mon["create_failure_histories"] += 1
+        if res[0] != "ok":
+            R.violation(case, "after %d calls whose socket creation failed, a normal exchange gave %r" % (n_fail, res[:2]), None)
     # cancellation of the caller during attempt j: nothing may stay open
     for retries in (1, 2, 3):
         for timeout in (1,):
@@ -400,6 +451,12 @@ def run(R):
 
 def replay(R, v):
     c = v["case"]
+    if c["part"] == "virtual-create-failures":
+        res = run_after_create_failures(c["n_fail"])
+        if res[0] != "ok":
+            R.violation(c, "after %d failing socket creations a normal exchange gave %r" % (c["n_fail"], res[:2]), None)
+        R.evaluations += 1
+        return
     if c["part"] == "real":
         res, leaked, received, rw = run_real(tuple(c["plan"]), c["retries"], c["timeout"], c["closed_port"])
         judge_real(R, c, tuple(c["plan"]), c["retries"], c["closed_port"], res, leaked, received, rw)
